@@ -563,7 +563,7 @@ def h_lift(eng, obj, st):
             return make_dict(eng, st, [(eng.lift(k, st), eng.lift(v, st)) for k, v in obj.items()])
         except Unsupported:
             return None
-    if isinstance(obj, frozenset):
+    if isinstance(obj, (frozenset, set)):
         from .builtins import make_set
         return make_set(eng, st, [eng.lift(x, st) for x in obj])
     return None
